@@ -64,14 +64,17 @@ CScanLoop(src, p, st, acc) ==
              a2 == IF c = "}" THEN Append(a1, CEv("blockEnd", p, p + 1, p)) ELSE a1
          IN CScanLoop(src, p + 1, CReset(st), a2)
     ELSE IF c = "{"
-    THEN LET s1 == IF st.s = -1 /\ st.ps = -1 THEN p + 1 ELSE st.s
+    THEN LET s1 == IF st.s = -1 /\ st.ps = -1 THEN p + 1
+                   ELSE IF st.ps = -1 /\ st.pd # -1 THEN st.pd                    \* a selector that starts with a colon (:root): the colon belongs to it
+                   ELSE st.s
              e1 == IF st.s = -1 /\ st.ps = -1 THEN p + 1 ELSE st.e
              s2 == IF st.ps # -1 THEN st.ps ELSE s1
              e2 == IF st.ps # -1 /\ e1 = -1 THEN st.pd + 1 ELSE e1
          IN CScanLoop(src, p + 1, CReset(st), Append(acc, CEv("selector", s2, e2, p)))
     ELSE IF c = ":" /\ st.x = 0 /\ CEatColons(src, p + 1) = p + 1
     THEN \* a property delimiter (or a pseudo-class, decided later)
-         CScanLoop(src, p + 1, [st EXCEPT !.ps = IF st.ps = -1 THEN st.s ELSE st.ps, !.pe = IF st.e # -1 THEN st.e ELSE st.pe,
+         CScanLoop(src, p + 1, [st EXCEPT !.ps = IF st.ps # -1 THEN st.ps ELSE IF st.pd # -1 /\ st.s # -1 THEN st.pd ELSE st.s,      \* a name after a leading colon starts with that colon
+                                          !.pe = IF st.e # -1 THEN st.e ELSE st.pe,
                                           !.pd = p, !.s = -1, !.e = -1], acc)
     ELSE LET q == IF c = ":" THEN (IF st.x # 0 THEN p + 1 ELSE CEatColons(src, p + 1))      \* a selector colon is the token
                   ELSE IF c = "(" \/ c = ")" THEN p + 1
